@@ -10,17 +10,23 @@
      look{h, p, path, method, query, hd, first, all, g}
                              one lookup (goroutine g): first = cluster of MatchRoute ("" = no route),
                              all = clusters of MatchAllRoutes in order
+     clusters{present}       the cluster manager now holds exactly these clusters
+     hlook{h, p, path, method, query, hd, route, snap}
+                             the route handler the proxy uses (GetMakeHandlerFunc(default).DoRouteHandler): cluster of the
+                             route it handed over ("" = none) and name of the cluster snapshot ("" = nil)
+     kvlook{h, p, key, value, got}   MatchRouteFromHeaderKV(key, value): cluster of the route ("" = none)
      panic{where, msg, what} the code under test panicked in a lookup / construction
    Every expectation is soft (Expect), so that one defect does not hide the next. *)
 EXTENDS VHostSem, RouteSem, VTrace
 
 VARIABLES cfg,    \* the configuration in force: sequence of [doms, rules]
-          ok      \* the configuration in force is one the specification defines lookups for
-tvars == <<cfg, ok, l>>
+          ok,     \* the configuration in force is one the specification defines lookups for
+          present \* clusters the cluster manager holds
+tvars == <<cfg, ok, present, l>>
 
 DomsOf(c) == [v \in 1..Len(c) |-> c[v].doms]
 
-TraceInit == l = 1 /\ cfg = <<>> /\ ok = FALSE
+TraceInit == l = 1 /\ cfg = <<>> /\ ok = FALSE /\ present = {}
 
 TCfg == /\ IsEvent("cfg")
         /\ LET valid == Valid(DomsOf(Ev.vhosts)) IN
@@ -28,6 +34,7 @@ TCfg == /\ IsEvent("cfg")
              /\ Expect(~Ev.err => valid, "build:invalid-config-accepted")
              /\ IF Ev.err THEN UNCHANGED <<cfg, ok>>          \* a refused update leaves the previous configuration in force
                 ELSE cfg' = Ev.vhosts /\ ok' = valid
+        /\ UNCHANGED present
 
 GotName(c) == IF c = 0 THEN "unrelated" ELSE ClassName(c)    \* class with which the answered virtual host applies to the request
 Empty(r) == IF r.h = <<>> /\ r.p = "" THEN ":empty-host" ELSE ""
@@ -37,7 +44,7 @@ TAddRoute == /\ IsEvent("addroute")
                   /\ Expect(Ev.idx = want, "update:addroute:want-" \o ClassName(SelectClass(DomsOf(cfg), Ev.dom))
                                             \o ":got-" \o (IF Ev.idx = 0 THEN "failed" ELSE GotName(VhClass(DomsOf(cfg), Ev.dom, Ev.idx))))
                   /\ cfg' = IF Ev.idx = 0 THEN cfg ELSE [cfg EXCEPT ![Ev.idx].rules = Append(@, Ev.rule)]
-             /\ UNCHANGED ok
+             /\ UNCHANGED <<ok, present>>
 
 TRemoveAll == /\ IsEvent("removeall")
               /\ LET want == IF ok THEN Select(DomsOf(cfg), Ev.dom) ELSE Ev.idx
@@ -46,7 +53,7 @@ TRemoveAll == /\ IsEvent("removeall")
                    /\ Expect(idx = want, "update:removeall:want-" \o ClassName(SelectClass(DomsOf(cfg), Ev.dom))
                                              \o ":got-" \o (IF idx = 0 THEN "failed" ELSE GotName(VhClass(DomsOf(cfg), Ev.dom, idx))))
                    /\ cfg' = IF idx <= 0 THEN cfg ELSE [cfg EXCEPT ![idx].rules = <<>>]
-              /\ UNCHANGED ok
+              /\ UNCHANGED <<ok, present>>
 
 (* virtual host owning cluster c (cluster names are unique per configuration), 0 if none *)
 OwnerOf(c) == LET vs == { v \in 1..Len(cfg) : \E k \in 1..Len(cfg[v].rules) : cfg[v].rules[k].c = c } IN
@@ -56,11 +63,15 @@ ClassOf(rs, c) == IF IdxOf(rs, c) = 0 THEN "unknown" ELSE RuleClass(rs[IdxOf(rs,
 SeqSet(s) == { s[k] : k \in 1..Len(s) }
 FirstIn(s, S) == s[CHOOSE k \in 1..Len(s) : s[k] \in S /\ \A j \in 1..(k - 1) : s[j] \notin S]
 
+EvReq == [path |-> Ev.path, method |-> Ev.method, query |-> Ev.query, hd |-> Ev.hd]
+EvVh  == Select(DomsOf(cfg), [h |-> Ev.h, p |-> Ev.p])
+SpecifiedEv == EvVh = 0 \/ Specified(cfg[EvVh].rules, EvReq)
+
 (* Failure kinds name the root cause class: which precedence class / which kind of rule was missed or wrongly taken *)
 TLook ==
   /\ IsEvent("look")
-  /\ UNCHANGED <<cfg, ok>>
-  /\ IF ~ok THEN TRUE ELSE
+  /\ UNCHANGED <<cfg, ok, present>>
+  /\ IF ~ok \/ ~SpecifiedEv THEN TRUE ELSE
      LET dc   == DomsOf(cfg)
          r    == [h |-> Ev.h, p |-> Ev.p]
          rq   == [path |-> Ev.path, method |-> Ev.method, query |-> Ev.query, hd |-> Ev.hd]
@@ -85,8 +96,43 @@ TLook ==
                        ELSE IF Len(Ev.all) # Len(wall) THEN "allroutes:duplicates" ELSE "allroutes:order")
 
 (* the code under test panicked instead of answering *)
-TPanic == IsEvent("panic") /\ Expect(FALSE, "panic:" \o Ev.where) /\ UNCHANGED <<cfg, ok>>
+TPanic == IsEvent("panic") /\ Expect(FALSE, "panic:" \o Ev.where) /\ UNCHANGED <<cfg, ok, present>>
 
-TraceNext == TCfg \/ TAddRoute \/ TRemoveAll \/ TLook \/ TPanic
+TClusters == IsEvent("clusters") /\ present' = SeqSet(Ev.present) /\ UNCHANGED <<cfg, ok>>
+
+(* the handler hands over the route MatchRoute selects, with the snapshot of its cluster iff the cluster exists *)
+THLook ==
+  /\ IsEvent("hlook")
+  /\ UNCHANGED <<cfg, ok, present>>
+  /\ IF ~ok \/ ~SpecifiedEv THEN TRUE ELSE
+     LET v    == EvVh
+         rs   == IF v = 0 THEN <<>> ELSE cfg[v].rules
+         f    == FirstMatch(rs, EvReq)
+         want == IF f = 0 THEN "" ELSE rs[f].c
+         wsnap == IF want \in present THEN want ELSE ""
+     IN /\ Expect(Ev.route = want,
+                  IF Ev.route = "" THEN "handler:route-dropped" \o (IF want \in present THEN "" ELSE ":cluster-absent")
+                  ELSE IF want # "" /\ want \notin present /\ Ev.route \in present THEN "handler:fell-through-to-existing-cluster"
+                  ELSE "handler:route-differs-from-matchroute")
+        /\ Expect(Ev.route # want \/ Ev.snap = wsnap,
+                  IF Ev.snap = "" THEN "handler:snapshot-missing" ELSE IF wsnap = "" THEN "handler:snapshot-of-absent-cluster" ELSE "handler:snapshot-of-other-cluster")
+
+(* the fast index answers like a scan over the rules reachable through it: the first one *)
+TKvLook ==
+  /\ IsEvent("kvlook")
+  /\ UNCHANGED <<cfg, ok, present>>
+  /\ IF ~ok THEN TRUE ELSE
+     LET v    == EvVh
+         rs   == IF v = 0 THEN <<>> ELSE cfg[v].rules
+         k    == KvSelect(rs, Ev.key, Ev.value)
+         want == IF k = 0 THEN "" ELSE rs[k].c
+         g    == IdxOf(rs, Ev.got)
+     IN Expect(Ev.got = want,
+               IF Ev.got = "" THEN "headerkv:missed-" \o RuleClass(rs[k])
+               ELSE IF g = 0 THEN "headerkv:route-of-other-virtualhost"
+               ELSE IF ~Indexed(rs[g], Ev.key, Ev.value) THEN "headerkv:unreachable-rule-returned-" \o RuleClass(rs[g])
+               ELSE "headerkv:later-duplicate-returned")
+
+TraceNext == TCfg \/ TAddRoute \/ TRemoveAll \/ TLook \/ TPanic \/ TClusters \/ THLook \/ TKvLook
 TraceSpec == TraceInit /\ [][TraceNext]_tvars
 ====
